@@ -7,7 +7,7 @@ from families.common import rcase, res_of
 
 RULE = ('html_escape over ALL 1 112 064 scalar values (folded checksum compared with the model, every run), '
         'random strings over an alphabet of all special characters through leaf esc with an unescape oracle; '
-        'marking escape fn at every expression kind ({{v}}, {{{v}}}, {{&v}}, {{ {v} }}, helper results, helper '
+        'marking escape fn at every expression kind ({{v}}, {{{v}}}, {{&v}}, {{ {v} }}, {{(helper ..)}}, helper results, helper '
         'arguments, subexpressions) and position (top level, each/with/if, partials, after a triple brace). '
         'Non-trivial = the value contains a special character or a marker was produced')
 EXHAUSTIVE = {'quick': True, 'thorough': True}
@@ -27,7 +27,7 @@ def gen_cases(rng, tier, scale):
     # fixed shape: every spelling
     for k in range((150 if tier == 'quick' else 2000) * scale):
         v = rs(rng)
-        tpl = 'A{{v}}B{{{v}}}C{{&v}}D{{ {v} }}E{{v}}F{{lookup o "k"}}G{{{lookup o "k"}}}H{{#each l}}{{this}}{{{this}}}{{/each}}I{{> p}}J{{#with o}}{{k}}{{/with}}'
+        tpl = 'A{{v}}B{{{v}}}C{{&v}}D{{ {v} }}E{{v}}F{{lookup o "k"}}G{{{lookup o "k"}}}H{{#each l}}{{this}}{{{this}}}{{/each}}I{{> p}}J{{#with o}}{{k}}{{/with}}K{{(lookup o "k")}}L{{{(lookup o "k")}}}M{{(lookup l 0)}}N{{&(lookup o "k")}}'
         d = {'v': v, 'o': {'k': v}, 'l': [v, v]}
         cases.append(rcase(f's{k}', tpl, d, pre=['esc 2'], partials={'p': '{{v}}{{{v}}}'}, entry=0, kind='shape', v=v, tags=['shape']))
     # helper arguments and subexpressions are never escaped
@@ -125,7 +125,7 @@ def oracle(c, io, mo):
     if k == 'shape':
         v = c['v']
         m = '\x01' + v + '\x02'
-        exp = f'A{m}B{v}C{v}D{v}E{m}F{m}G{v}H{m}{v}{m}{v}I{m}{v}J{m}'
+        exp = f'A{m}B{v}C{v}D{v}E{m}F{m}G{v}H{m}{v}{m}{v}I{m}{v}J{m}K{m}L{v}M{m}N{v}'
         return None if out == exp else f'expected {exp!r}, got {out!r}'
     if k == 'args':
         v = c['v']
